@@ -1,4 +1,27 @@
+import Spok.Lemmas.LexTerm
 import Spok.Judge.Syntax
-/-! # Property C08 — theorems (under construction) -/
+/-! # Property C08 — parsing any input terminates, deterministically, with a tree or a located error
+
+`lex` and `parse` are total Lean functions, so every input has exactly one result (determinism is
+functionality).  What has to be *proved* is that the result is never one of the explicit
+"the Go code would not get here" outcomes: the lexer's step budget and the command loop's fuel are
+never exhausted (`C08_lexer_halts`), … (parser: under construction). -/
 namespace Spok.Props.C08
+open Spok
+
+/-- For every byte string the lexer reaches its final state within `3·|runes| + 4` steps: the
+    `run` loop of the Go lexer terminates and `lexTaskCommands` never spins. -/
+theorem C08_lexer_halts (bytes : List UInt8) : (lex bytes).halted = true := by
+  unfold lex; exact lexRunes_halted _
+
+/-- the mechanism named by the property: every state function consumes input, ends the scan, or
+    moves down in `rank` -/
+theorem C08_every_state_makes_progress (l : L) (t : Tag) (ht : t.final = false) :
+    (stepTag l t).2 ≠ .spin ∧
+    ((stepTag l t).2 = .done ∨ 3 * (stepTag l t).1.right.length + rank (stepTag l t).2 < 3 * l.right.length + rank t) :=
+  dec_stepTag l t ht
+
+/-- non-vacuity: a task body with two commands lexes to the end -/
+example : (lex "task t(\"a\") {\n go test\n echo {{.X}}\n}\n".toUTF8.toList).halted = true := C08_lexer_halts _
+
 end Spok.Props.C08
